@@ -640,6 +640,9 @@ def exec_rollouts(case, ctx):
 
     name, B, mode = case["env"], case["B"], case["mode"]
     key = case["zoo"][0] if case.get("zoo") else "am"
+    if "mvmoe" in key:
+        from ..policies import moe_watch
+        moe_watch(ctx)  # expert choices within float32 rounding are don't-care (vf.policies, MoE gates)
     if name in EXCLUDED_C:
         ctx.exclude(f"{name}: start rule is a known finding (F17-F19), excluded from end-to-end runs")
         return
